@@ -34,6 +34,8 @@ impl FqVarExtension for FqVar {
         // Note: `num = 1`
         // `y = sqrt(num/den)`
         let (was_square, y) = Fq::sqrt_ratio_zeta(&Fq::ONE, &den);
+        #[cfg(decaf377_verif)]
+        let (was_square, y) = crate::ark_curve::r1cs::verif::hint(den, was_square, y);
 
         let cs = self.cs();
         let was_square_var = Boolean::new_witness(cs.clone(), || Ok(was_square))?;
